@@ -13,9 +13,13 @@ import (
 	"fmt"
 	"go/token"
 	"go/types"
+	"sort"
+
+	"golang.org/x/tools/go/ssa"
 )
 
 type guardInfo struct {
+	decl     *guardDecl
 	rootT    string // mangled struct type
 	T        types.Type
 	muIdx    int
@@ -41,7 +45,7 @@ func (g *fgen) setupGuards() {
 		if !ok {
 			continue
 		}
-		gi := &guardInfo{rootT: typeName(T), T: T, muIdx: -1, fieldIdx: map[int]string{}}
+		gi := &guardInfo{decl: gd, rootT: typeName(T), T: T, muIdx: -1, fieldIdx: map[int]string{}}
 		for i := 0; i < s.NumFields(); i++ {
 			if s.Field(i).Name() == gd.mutex {
 				gi.muIdx = i
@@ -93,5 +97,146 @@ func (g *fgen) guardCheck(st *state, l *loc, write bool, pos token.Pos) {
 		}
 		g.oblige(kind, name+"@"+g.siteLabel(pos, "access"), goal, pos)
 		g.obls[len(g.obls)-1].src = "field " + name + " is guarded by the object's mutex"
+	}
+}
+
+// releasedBefore: some path through the function releases a mutex (same struct type,
+// same field) and then reaches the acquisition `in`.  Deferred releases run at function
+// exit and never precede an acquisition.
+func (g *fgen) releasedBefore(in ssa.CallInstruction, rootT string, field int) bool {
+	isRelease := func(x ssa.Instruction) bool {
+		ci, ok := x.(*ssa.Call)
+		if !ok {
+			return false
+		}
+		c := ci.Common()
+		if c.IsInvoke() || len(c.Args) == 0 {
+			return false
+		}
+		callee := c.StaticCallee()
+		if callee == nil || callee.Pkg == nil || callee.Pkg.Pkg.Path() != "sync" {
+			return false
+		}
+		if n := callee.Name(); n != "Unlock" && n != "RUnlock" {
+			return false
+		}
+		fa, ok := c.Args[0].(*ssa.FieldAddr)
+		if !ok {
+			return false
+		}
+		_, T, ok := derefStruct(fa.X.Type())
+		return ok && typeName(T) == rootT && fa.Field == field
+	}
+	target := in.Block()
+	for _, b := range g.fn.Blocks {
+		for i, x := range b.Instrs {
+			if !isRelease(x) {
+				continue
+			}
+			if b == target {
+				for _, y := range b.Instrs[i+1:] {
+					if y == ssa.Instruction(in) {
+						return true
+					}
+				}
+			}
+			// reachability through successors
+			seen := map[*ssa.BasicBlock]bool{}
+			work := append([]*ssa.BasicBlock{}, b.Succs...)
+			for len(work) > 0 {
+				n := work[len(work)-1]
+				work = work[:len(work)-1]
+				if seen[n] {
+					continue
+				}
+				seen[n] = true
+				if n == target {
+					return true
+				}
+				work = append(work, n.Succs...)
+			}
+		}
+	}
+	return false
+}
+
+// lockInterference: acquiring the mutex of a guarded object (Lock or RLock) is the point
+// where the writes other goroutines made while the lock was free become visible.  After
+// an acquisition that follows a release of the same mutex in the same function, the
+// guarded fields of the object, and what they hold (slice elements, map contents), are
+// unknown: nothing learnt about them in an earlier critical section survives into the
+// next one.  (The first critical section is not havocked: the function's entry state is
+// taken to be the state at its first acquisition.)  Type invariants are assumed again by
+// the caller.
+func (g *fgen) lockInterference(in ssa.CallInstruction, st *state) {
+	if len(g.guardInfos) == 0 {
+		return
+	}
+	c := in.Common()
+	if c.IsInvoke() || len(c.Args) == 0 {
+		return
+	}
+	callee := c.StaticCallee()
+	if callee == nil || callee.Pkg == nil || callee.Pkg.Pkg.Path() != "sync" {
+		return
+	}
+	if n := callee.Name(); n != "Lock" && n != "RLock" {
+		return
+	}
+	fa, ok := c.Args[0].(*ssa.FieldAddr)
+	if !ok {
+		return
+	}
+	_, T, ok := derefStruct(fa.X.Type())
+	if !ok {
+		return
+	}
+	for _, gi := range g.guardInfos {
+		if gi.rootT != typeName(T) || gi.muIdx != fa.Field {
+			continue
+		}
+		base := g.get(fa.X)
+		if g.freshRefs[base.t] {
+			return // not yet shared
+		}
+		if !g.releasedBefore(in, typeName(T), fa.Field) {
+			// first critical section on every path: the function's entry state is
+			// taken to be the state at this acquisition
+			continue
+		}
+		rt, err := parseTypeString(gi.decl.recvType)
+		if err != nil {
+			return
+		}
+		fc := &funcContract{pkgPath: gi.decl.pkgPath, key: "lock of " + gi.decl.recvType + "." + gi.decl.mutex, recvName: "xguard", recvType: rt, hasMod: true}
+		st0, _, _ := derefStruct(fa.X.Type())
+		for i, f := range gi.fieldIdx {
+			fc.modifies = append(fc.modifies, "xguard."+f)
+			switch st0.Field(i).Type().Underlying().(type) {
+			case *types.Slice, *types.Map:
+				fc.modifies = append(fc.modifies, "elems(xguard."+f+")")
+			}
+		}
+		sort.Strings(fc.modifies)
+		nq := new(int)
+		*nq = 1000 * (len(g.obls) + 1)
+		pre := st.clone()
+		env := &cenv{g: g, st: pre, old: pre, vars: map[string]val{"xguard": base}, pkg: g.w.allTPkg[gi.decl.pkgPath], nq: nq}
+		ms := newModset()
+		g.w.declMods(g, fc, ms)
+		if !ms.all {
+			g.applyPrecise(g.preciseLocs(fc, env), ms, st)
+		}
+		g.applyModset(ms, st, fc.key)
+		post := &cenv{g: g, st: st, old: pre, vars: map[string]val{gi.decl.recvName: base}, pkg: g.w.allTPkg[gi.decl.pkgPath], nq: nq}
+		for _, c := range gi.decl.rely {
+			t, err := post.safeBool(c)
+			if err != nil {
+				panic(transErr(err.Error()))
+			}
+			g.fact(g.curGuard, t)
+			g.assum["rely on other goroutines ("+gi.decl.recvType+"): "+c.src] = true
+		}
+		g.assum["other goroutines change the guarded fields of a "+gi.decl.recvType+" only while its "+gi.decl.mutex+" is not held by this one (modelled: the fields are unknown at an acquisition that follows a release in the same function; the entry state stands for the state at the first acquisition)"] = true
 	}
 }
